@@ -372,6 +372,10 @@ def _task_fresh(task):
     return _task(task)
 
 
+class TwoCall(Exception):
+    pass
+
+
 def config_list_pass(rep, variant):
     """the advertised list itself, judged independently of the library's own parsing: under a positive list exactly the named mechanisms the build supports,
     under a negative list everything but the named ones - also when the list contains a name this build does not know (first / middle / last), blanks
@@ -391,7 +395,15 @@ def config_list_pass(rep, variant):
                 W.ok(p.Initialize(), "init")
                 slot = p.GetSlotList(1, 8)["slots"][0]
                 cnt = p.GetMechanismList(slot, "q")["n"]
-                return set(p.GetMechanismList(slot, cnt + 4)["mechs"])
+                # the list is fetched the way applications do it: with exactly the reported count (the buffer ends at a guard page)
+                try:
+                    r = p.GetMechanismList(slot, cnt)
+                except Died as d:
+                    raise TwoCall("died=%r" % (d.info,))
+                # (a name given twice in a positive list is advertised twice by the unchanged library: odd, but not against the statement - not judged)
+                if r["rv"] != 0 or r.get("wmax", 0) > 8 * cnt:
+                    raise TwoCall("rv=%s count=%d wmax=%s" % (C.CKR_NAMES.get(r["rv"], r["rv"]), cnt, r.get("wmax")))
+                return set(r["mechs"])
             finally:
                 sh.close()
         os.makedirs(os.path.join(root, "base"))
@@ -452,8 +464,16 @@ def config_list_pass(rep, variant):
                     rep.add_violation({"signature": "C07|config|%s|advertised-list-differs-from-the-configured-restriction|%s" % (tag, "mechanisms-not-removed" if extra else "mechanisms-missing"),
                                        "detail": {"slots.mechanisms": c2, "first_configuration": c1, "advertised_but_excluded": [C.CKM_NAMES.get(x, hex(x)) for x in extra][:12], "allowed_but_missing": [C.CKM_NAMES.get(x, hex(x)) for x in missing][:12]},
                                        "history": [], "action": None, "variant": variant, "store": "file", "replay_module": "c07_usage", "config_tag": tag, "property": "C07"})
+        variants.append(("positive-list-with-repeated-name", ",".join(pos_names + pos_names[:1]), full & pos))
+        variants.append(("positive-list-with-repeated-name-first", ",".join(pos_names[-1:] + pos_names), full & pos))
         for tag, conf, want in variants:
-            got = advertised(conf, tag)
+            try:
+                got = advertised(conf, tag)
+            except TwoCall as e:
+                n += 1
+                rep.add_violation({"signature": "C07|config|%s|mechanism-list-cannot-be-fetched-with-the-reported-count" % tag, "detail": {"slots.mechanisms": conf, "what": str(e)},
+                                   "history": [], "action": None, "variant": variant, "store": "file", "replay_module": "c07_usage", "config_tag": tag, "property": "C07"})
+                continue
             n += 1
             if got != want:
                 extra, missing = sorted(got - want), sorted(want - got)
